@@ -79,9 +79,14 @@ class Synthesizer(object):
             low_count_params = anonymization_params.low_count_params
             # Stop counting entities over 4 standard deviations more than the mean of the range threshold.
             # `low_mean_gap` is the number of standard deviations between `low_threshold` and desired mean.
-            max_low_count = bucketization_params.range_low_threshold + int(
-                (low_count_params.low_mean_gap + 4.0) * low_count_params.layer_sd
+            # The counter must keep counting up to the largest threshold it is asked about; otherwise a group
+            # of fewer than `low_threshold` entities would pass the filter once the counter saturates.
+            max_threshold = max(
+                low_count_params.low_threshold,
+                bucketization_params.singularity_low_threshold,
+                bucketization_params.range_low_threshold,
             )
+            max_low_count = max_threshold + int((low_count_params.low_mean_gap + 4.0) * low_count_params.layer_sd)
             counters_factory = GenericPidCountersFactory(len(pids.columns), max_low_count)
 
         self.raw_dtypes = raw_data.dtypes
